@@ -6,7 +6,7 @@ import argparse
 
 PLAN = {
     # property: (machine module, runs quick, runs thorough, cfg)
-    'C09': ('machines.hist', 160, 6000, {}),
+    'C09': ('machines.hist', 400, 20000, {}),
     'C11': ('machines.peer', 200, 20000, {}),
     'C17': ('machines.multi', 400, 40000, {}),
     'C19': ('machines.det', 400, 30000, {}),
@@ -23,6 +23,10 @@ def main():
     ap.add_argument('--replay', default=None)
     a = ap.parse_args()
     sys.path.insert(0, os.path.dirname(os.path.dirname(os.path.abspath(__file__))))
+    if a.prop == 'selftest':
+        from checks import selftest
+        sys.argv = ['selftest', 'x'] + ([str(a.runs)] if a.runs else [])
+        return selftest.main()
     from sim import runner
     if a.replay:
         return runner.main_replay(a.replay)
